@@ -428,6 +428,28 @@ def stepC09 (ts : List String) : String :=
     | _, _, _, _, _ => "bad-op"
   | _ => "bad-op"
 
+/-- `C11 fold g N C nbins nints nb <C delays> <C sbs> <nf pbs> <nf sis> <N*C data>`, nf = N - maxdelay -/
+def stepC11 (ts : List String) : String :=
+  match ts with
+  | "fold" :: g :: N :: C :: nbins :: nints :: nb :: rest =>
+    match g.toNat?, N.toNat?, C.toNat?, nbins.toNat?, nints.toNat?, nb.toNat? with
+    | some g, some N, some C, some nbins, some nints, some nb =>
+      match natList? (rest.take C), natList? ((rest.drop C).take C) with
+      | some delays, some sbs =>
+        let md := Reduce.maxDelay delays
+        let nf := N - md
+        let r2 := rest.drop (2 * C)
+        match natList? (r2.take nf), natList? ((r2.drop nf).take nf), intList? (r2.drop (2 * nf)) with
+        | some pb, some si, some flat =>
+          if flat.length ≠ N * C then "bad-op" else
+          (match Fold.fold flat C delays g 0 N N nbins nints nb pb si sbs with
+           | .ok (sums, cnts) => s!"ok {sums.length} {showInts sums} {showInts cnts}"
+           | .error e => s!"err {e.name}")
+        | _, _, _ => "bad-op"
+      | _, _ => "bad-op"
+    | _, _, _, _, _, _ => "bad-op"
+  | _ => "bad-op"
+
 def step (line : String) : String :=
   match (line.trimAscii.toString.splitOn " ").filter (· ≠ "") with
   | "C03" :: rest => stepC03 rest
@@ -438,6 +460,7 @@ def step (line : String) : String :=
   | "C07" :: rest => stepC07 rest
   | "C08" :: rest => stepC08 rest
   | "C09" :: rest => stepC09 rest
+  | "C11" :: rest => stepC11 rest
   | "C04" :: rest => stepC04 rest
   | "C10" :: rest => stepC10 rest
   | _ => "bad-op"
